@@ -20,6 +20,10 @@ def script(name, deps, dur_ms=20, fail=False, always=False, stamp=False, stderr_
         L.append("redo-ifchange " + " ".join(deps))
     if always:
         L.append("redo-always")
+    if stamp:
+        # the checksum is recorded FIRST, the (long) work and the output come after:
+        # between the two the row already says "changed in this run" while the script still runs
+        L.append('echo "out $1" | redo-stamp')
     L.append('__ws B "$1"')
     for i in range(stderr_lines):
         L.append('echo "line-%d-of-$1" >&2' % i)
@@ -27,8 +31,9 @@ def script(name, deps, dur_ms=20, fail=False, always=False, stamp=False, stderr_
     L.append('__ws E "$1"')
     if fail:
         L.append("exit 3")
-    if stamp:
-        L.append('echo "out $1" | tee "$3" | redo-stamp')
+    # the output depends on what the dependencies contain at this moment
+    if deps:
+        L.append('echo "out $1 <$(cat %s | tr \'\\n\' \' \')>"' % " ".join(deps))
     else:
         L.append('echo "out $1"')
     return "\n".join(L) + "\n"
